@@ -340,15 +340,15 @@ def mutate_sites(c, rng):
 from props.c20_corpus import build_corpus, entry_known   # noqa: E402
 
 
-def _run_driver(corpus_path, hseed, rseed):
+def _run_driver(corpus_path, hseed, rseed, plan="once"):
     env = dict(os.environ)
     env.update({"PYTHONPATH": REPO + os.pathsep + VERIF, "PYTHONHASHSEED": str(hseed), "PYTHONDONTWRITEBYTECODE": "1"})
-    p = subprocess.run([IMPL_PY, os.path.join(VERIF, "impl", "c20.py"), "--driver", corpus_path, str(rseed)],
+    p = subprocess.run([IMPL_PY, os.path.join(VERIF, "impl", "c20.py"), "--driver", corpus_path, str(rseed), plan],
                        capture_output=True, text=True, env=env, timeout=1500, cwd=VERIF)
     lines = [json.loads(l[2:]) for l in p.stdout.splitlines() if l.startswith("R ")]
     if p.returncode != 0:
         raise RuntimeError(f"driver failed (hash seed {hseed}, random seed {rseed}): {p.stderr[-1500:]}")
-    return (hseed, rseed), lines
+    return (hseed, rseed, plan), lines
 
 
 def norm_ids(o):
@@ -370,7 +370,9 @@ def process_check(tier, seed):
     try:
         path = os.path.join(tmp, "corpus.json")
         json.dump(corpus, open(path, "w"))
-        jobs = [(h, r) for h in hseeds for r in rseeds]
+        # every second random seed runs under the adversarial plan "each" (random.seed before each separate
+        # apply_filters call of the entries that have `filters_separate`)
+        jobs = [(h, r, "each" if k % 2 else "once") for h in hseeds for k, r in enumerate(rseeds)]
         with cf.ThreadPoolExecutor(NPROC) as ex:
             results = list(ex.map(lambda j: _run_driver(path, *j), jobs))
     finally:
@@ -415,20 +417,20 @@ def process_check(tier, seed):
             # the draw decides; runs with the same random seed (same draws) must still agree across hash seeds
             byr = {}
             explained = True
-            for (h, r), lines in results:
+            for (h, r, _pl), lines in results:
                 if byr.setdefault(r, lines[i]["sha"]) != lines[i]["sha"]:
                     explained = False
         if fid and explained:
             known_hits.setdefault(fid, {"entry": entry["id"]})
             stats["known_finding_entries"] += 1
             continue
-        (h2, r2), other = diff
+        (h2, r2, pl2), other = diff
         problems.append(Problem("violation", "process",
-                                {"entry": entry, "seeds_a": {"PYTHONHASHSEED": ref_key[0], "random.seed": ref_key[1]},
-                                 "seeds_b": {"PYTHONHASHSEED": h2, "random.seed": r2}},
+                                {"entry": entry, "seeds_a": {"PYTHONHASHSEED": ref_key[0], "random.seed": ref_key[1], "plan": ref_key[2]},
+                                 "seeds_b": {"PYTHONHASHSEED": h2, "random.seed": r2, "plan": pl2}},
                                 {"why": "output differs between two processes", "output_a": base["out"], "output_b": other["out"],
                                  "how_to_replay": "write [entry] to a JSON file F, then run twice: PYTHONHASHSEED=<seed> PYTHONPATH=<repo>:<verif> "
-                                                  "/venv/bin/python impl/c20.py --driver F <random.seed>  and compare the printed records"}))
+                                                  "/venv/bin/python impl/c20.py --driver F <random.seed> <plan>  and compare the printed records"}))
     return {"name": "process", "problems": problems, "evaluations": len(corpus) * len(results),
             "nontrivial_keys": sorted(nontriv), "stats": stats, "known_hits": known_hits,
             "samples": [{"suite": "process", "case": corpus[0]["id"], "impl": ref[0]["sha"]}]}
